@@ -212,7 +212,7 @@ def fmt_cell(cell):
 
 
 def run_cells(ctx, prog, rule, fn_label, path, mkargs, cellsets, spec, out_bits, gargs=None, interp=None,
-              panic_is_violation=True, max_product=6000, exempt_panic=None, exhaustive_limit=0, extract=None, flat=None):
+              panic_is_violation=True, max_product=6000, exempt_panic=None, exhaustive_limit=0, extract=None, flat=None, key_label=None):
     """evaluate `path` on the product of `cellsets` (one list of (lo,hi) per argument).
     mkargs(cell_tuple) -> abstract argument list.  spec(xs) -> expected output bits, or None (excluded).
     Returns statistics dict."""
@@ -286,9 +286,9 @@ def run_cells(ctx, prog, rule, fn_label, path, mkargs, cellsets, spec, out_bits,
             stats['witnesses'] += nchk
             if bad:
                 xs, exp, got = bad
-                ctx.finding(rule, fn_label, 'cell=' + fmt_cell(cell),
-                            'on cell %s every input returns %s but the specification gives %#x for input %s (obtained %#x)'
-                            % (fmt_cell(cell), desc, exp, tuple(hex(x) for x in xs), got),
+                ctx.finding(rule, key_label or fn_label, ('cell=' + fmt_cell(cell)) if not key_label else 'values',
+                            '%son cell %s every input returns %s but the specification gives %#x for input %s (obtained %#x)'
+                            % ((fn_label + ': ') if key_label else '', fmt_cell(cell), desc, exp, tuple(hex(x) for x in xs), got),
                             {'cell': cell, 'descriptor': desc, 'witness': [hex(x) for x in xs], 'expected': hex(exp),
                              'obtained': hex(got), 'function': path, 'assumed': out.assumed[:5]})
             else:
@@ -302,9 +302,17 @@ def run_cells(ctx, prog, rule, fn_label, path, mkargs, cellsets, spec, out_bits,
                 continue
             # a definite panic / non-termination on the whole cell: violation unless the spec excludes all witnesses
             if panic_is_violation and any(spec(flat(xs) if flat else xs) is not None for xs in wits):
-                ctx.finding(rule, fn_label, 'cell=' + fmt_cell(cell),
-                            'on cell %s the function does not return: %s %s at %s' % (fmt_cell(cell), out.kind, out.value, out.where),
-                            {'cell': cell, 'event': out.kind, 'kind': out.value, 'where': out.where, 'function': path, 'why': out.why})
+                site = getattr(out, 'site', None)
+                if out.kind == 'panic' and site:
+                    # keyed by the failing site (function, assertion kind, ordinal), not by the input: one finding per site
+                    ctx.finding('PANIC', site[0], '%s#%d' % (site[1], site[2]),
+                                '%s at %s: reached with every input of cell %s of %s (first witness); the operation does not return in an overflow-checked build'
+                                % (out.value, out.where, fmt_cell(cell), fn_label),
+                                {'cell': cell, 'event': out.kind, 'kind': out.value, 'where': out.where, 'function': path, 'entry': fn_label})
+                else:
+                    ctx.finding(rule, fn_label, 'cell=' + fmt_cell(cell),
+                                'on cell %s the function does not return: %s %s at %s' % (fmt_cell(cell), out.kind, out.value, out.where),
+                                {'cell': cell, 'event': out.kind, 'kind': out.value, 'where': out.where, 'function': path, 'why': out.why})
     for k, v in stats.items():
         ctx.count(k, v)
     ctx.count('functions', 1)
